@@ -225,7 +225,45 @@ def vec_items(expr):
     return split_top(inner)
 
 
+_LIB = None
+
+
+def library_tables():
+    """Tables read from the library itself (`sgverif dump-tables`, built from /repo's current tree by
+    the check just before this script runs): independent of how the source text spells them.
+    `None` when the dump is not available (then the source-text parsers below are used)."""
+    global _LIB
+    if _LIB is not None:
+        return _LIB or None
+    _LIB = False
+    exe = os.environ.get("SGVERIF_DUMP")
+    if exe and os.path.exists(exe):
+        import json
+        import subprocess
+        try:
+            p = subprocess.run([exe, "dump-tables"], stdout=subprocess.PIPE, stderr=subprocess.PIPE, timeout=120)
+            if p.returncode == 0:
+                _LIB = json.loads(p.stdout.decode("utf-8"))
+            else:
+                print("extract.py: dump-tables failed: " + p.stderr.decode("utf-8", "replace")[-300:], file=sys.stderr)
+        except Exception as e:  # noqa
+            print(f"extract.py: dump-tables not usable: {e}", file=sys.stderr)
+    return _LIB or None
+
+
+SOURCES = {}
+
+
 def gen_languages_table():
+    lib = library_tables()
+    if lib:
+        SOURCES["languages"] = "library (LanguageRegistry::default())"
+        return lib["languages"]
+    SOURCES["languages"] = "source text (src/language/registry.rs)"
+    return gen_languages_table_from_text()
+
+
+def gen_languages_table_from_text():
     """`impl Default for LanguageRegistry`: the built-in language table."""
     text = src("src/language/registry.rs")
     m = re.search(r"impl\s+Default\s+for\s+LanguageRegistry", text)
@@ -292,10 +330,25 @@ def gen_presets():
     """src/config/presets.rs: every built-in preset as a `Gate.Cfg` (pattern-compiles bits are
     assumed true here; the harness compiles the real patterns and runs `config validate`)"""
     import tomllib
-    text = src("src/config/presets.rs")
-    names = re.findall(r'"([a-z0-9-]+)"\s*=>\s*(PRESET_[A-Z_]+)', text)
-    if not names:
-        die("no preset table found in src/config/presets.rs")
+    lib = library_tables()
+    if lib:
+        SOURCES["presets"] = "library (config::presets::load_preset)"
+        parsed = [(n, t) for n, t in lib["presets"]]
+    else:
+        SOURCES["presets"] = "source text (src/config/presets.rs)"
+        text = src("src/config/presets.rs")
+        names = re.findall(r'"([a-z0-9-]+)"\s*=>\s*(PRESET_[A-Z_]+)', text)
+        if not names:
+            die("no preset table found in src/config/presets.rs")
+        parsed = []
+        for name, const_name in names:
+            mm = re.search(r"const\s+" + const_name + r'\s*:\s*&str\s*=\s*r#"(.*?)"#;', text, re.S)
+            if not mm:
+                die(f"preset constant {const_name} not found")
+            try:
+                parsed.append((name, tomllib.loads(mm.group(1))))
+            except Exception as e:  # noqa
+                die(f"preset {name} is not valid TOML: {e}")
     vtext = src("src/config/validation.rs")
     m = re.search(r"VALID_REPORT_SECTIONS[^=]*=\s*&\[([^\]]*)\]", vtext)
     m2 = re.search(r"VALID_BREAKDOWN_BY[^=]*=\s*&\[([^\]]*)\]", vtext)
@@ -310,14 +363,7 @@ def gen_presets():
     default_thr = md.group(1)
     default_max = int(const("src/config/model.rs", "DEFAULT_MAX_LINES", "nat"))
     rows = []
-    for name, const_name in names:
-        mm = re.search(r"const\s+" + const_name + r'\s*:\s*&str\s*=\s*r#"(.*?)"#;', text, re.S)
-        if not mm:
-            die(f"preset constant {const_name} not found")
-        try:
-            t = tomllib.loads(mm.group(1))
-        except Exception as e:  # noqa
-            die(f"preset {name} is not valid TOML: {e}")
+    for name, t in parsed:
         if t.get("version") not in (None, "2"):
             die(f"preset {name} has version {t.get('version')}")
         c = t.get("content", {})
@@ -396,6 +442,7 @@ def main():
     print(f"Generated/Languages.lean {'rewritten' if changed else 'unchanged'}")
     changed = write_if_changed(os.path.join(OUT, "Presets.lean"), gen_presets())
     print(f"Generated/Presets.lean {'rewritten' if changed else 'unchanged'}")
+    print("tables from: " + "; ".join(f"{k}: {v}" for k, v in sorted(SOURCES.items())))
 
 
 if __name__ == "__main__":
